@@ -141,10 +141,17 @@ class CallMixin:
         res = self.fresh_result(con)
         for f in wf(res):
             self.fact(st, f)
-        post = S.Ctx(bound, old=pre, result=res)
+        post = S.Ctx(bound, old=pre, result=res, extra={"wit": self.fresh_witnesses(con)})
         for label, f in con.ensures(post):
             self.fact(st, f)
         return res
+
+    def fresh_witnesses(self, con):
+        """Skolem functions of a callee's postcondition (it proved they exist)."""
+        out = {}
+        for name, (doms, rng) in getattr(con, "witness_sig", {}).items():
+            out[name] = z3.Function(fresh_name("wit_" + name), *([sort_of(d) for d in doms] + [sort_of(rng)]))
+        return out
 
     def fresh_result(self, con):
         if con.ret == TNone:
@@ -190,7 +197,7 @@ class CallMixin:
         for v in [res] + [post_env[n] for n in post_env]:
             for f in wf(v):
                 self.fact(st, f)
-        post = S.Ctx(post_env, old=pre, result=res)
+        post = S.Ctx(post_env, old=pre, result=res, extra={"wit": self.fresh_witnesses(con)})
         # exceptional exits are handled by the statement layer
         self.pending_effect = (con, pre, post, post_env, recv_node, node)
         for label, f in con.ensures(post):
@@ -435,17 +442,22 @@ class CallMixin:
         finally:
             self.guards.pop()
             self.bound.pop()
+        kb_t = None
         if ka.ty not in (TInt, TReal):
-            raise Unsupported("sort key of type %s" % ka.ty, node)
+            conv = self.sortkey_handlers.get(ka.ty.key)
+            if conv is None:
+                raise Unsupported("sort key of type %s" % ka.ty, node)
+            ka = conv(self, ka)
         kb = z3.substitute(ka.t, (a, b))
         self.fact(st, l_len(R) == n)
         self.fact(st, forall([a], z3.Implies(z3.And(0 <= a, a < n), z3.And(0 <= pi(a), pi(a) < n, l_at(R, a) == l_at(lst.t, pi(a)), pinv(pi(a)) == a)),
-                                patterns=[l_at(R, a)]))
+                                patterns=[l_at(R, a), pi(a)]))
         self.fact(st, forall([a], z3.Implies(z3.And(0 <= a, a < n), z3.And(0 <= pinv(a), pinv(a) < n, pi(pinv(a)) == a)),
                                 patterns=[pinv(a), S.Tr(a)]))
         self.fact(st, forall([a, b], z3.Implies(z3.And(0 <= a, a < b, b < n), z3.And(ka.t <= kb, z3.Implies(ka.t == kb, pi(a) < pi(b)))),
                                 patterns=[z3.MultiPattern(l_at(R, a), l_at(R, b))]))
         self.last_sort = dict(R=R, pi=pi, pinv=pinv)
+        st.ghost["last_sort"] = self.last_sort
         return Val(ty, R)
 
     def _keyfn(self, node, st):
